@@ -117,6 +117,10 @@ def violations_of(u):
             out.append(("c10:crash:%s:%s" % (c.fn.dir, sig_shape(c.fn)),
                         "native run aborted (rc=%s) during call %d %s; stderr: %s" % (u.rc, c.k, c.fn.label(), (u.stderr or "")[-600:]), c))
             break
+        for ph, line in c.obs.get("sanitizer", []):
+            kind = re.sub(r"0x[0-9a-f]+|\d+", "N", line.split("runtime error:")[-1] if "runtime error:" in line else line.split("AddressSanitizer:")[-1])[:80].strip()
+            out.append(("c10:sanitizer:%s:%s" % (c.fn.dir, kind.replace(" ", "-")),
+                        "sanitizer report during phase %s of %s [%s]: %s" % (ph, c.fn.label(), u.cfg_words or "default", line), c))
         for what, exp, got in G.judge_values(u, c):
             cls = "arg" if "argument" in what else "result"
             out.append(("c10:%s-%s:%s" % (c.fn.dir, cls, sig_shape(c.fn)),
@@ -143,8 +147,8 @@ def run(ctx):
         ctx.notes.append("could not re-read wasmparser's 32-flag limit from the cargo registry")
     proof_ok = ctx.proof_leg(TARGETS, ["Props.C10"], THEOREMS)
 
-    nworlds = 5 if quick else 150
-    calls_per_func = 2 if quick else 3
+    nworlds = 10 if quick else 200
+    calls_per_func = 3
     worlds, rejected = gen_worlds(ctx.rng, nworlds, excl)
     units = []
     for i, c in enumerate(corpus_cases()):
